@@ -420,6 +420,38 @@ Definition read_all_cas (bs : list N) (ft : footer) : option (list cas_info) :=
   let sec := skipn (N.to_nat (ft_cas_info_offset ft)) bs in
   match parse_all parse_cas_info (fuel_of sec) sec with Some (l, _) => Some l | None => None end.
 
+(* ---- the streaming walk (streaming_shard::process_shard_stream): the header (tag checked), then each section record by
+   record up to its bookend, without the footer or the lookup tables.  A record is handed to the callback as its bytes
+   (header and entries); a section that ends before its record does is an error. ---- *)
+Definition blob_file (bs : list N) : option (option (list N) * list N) :=
+  match de_FileDataSequenceHeader bs with
+  | None => None
+  | Some ((h, fl, n, _), r) =>
+      if bytes_eqb h bookend_hash then Some (None, r)
+      else let k := n * (if has_verif fl then 2 else 1) + (if has_ext fl then 1 else 0) in
+           if enough k r then Some (Some (firstn (48 + N.to_nat (k * 48)) bs), skipn (N.to_nat (k * 48)) r) else None
+  end.
+Definition blob_cas (bs : list N) : option (option (list N) * list N) :=
+  match de_CASChunkSequenceHeader bs with
+  | None => None
+  | Some ((h, _, n, _, _), r) =>
+      if bytes_eqb h bookend_hash then Some (None, r)
+      else if enough n r then Some (Some (firstn (48 + N.to_nat (n * 48)) bs), skipn (N.to_nat (n * 48)) r) else None
+  end.
+Definition stream_walk (bs : list N) : option (list (list N) * list (list N)) :=
+  match de_MDBShardFileHeader bs with
+  | None => None
+  | Some ((tag, _, _), r) =>
+      if negb (bytes_eqb tag MDB_SHARD_HEADER_TAG) then None
+      else match parse_all blob_file (fuel_of r) r with
+           | None => None
+           | Some (fl, r1) => match parse_all blob_cas (fuel_of r1) r1 with
+                              | None => None
+                              | Some (cl, _) => Some (fl, cl)
+                              end
+           end
+  end.
+
 (* MDBShardFile::export_with_expiration: the bytes up to the footer offset, followed by the footer with a new expiry *)
 Definition ser_footer (ft : footer) : list N :=
   ser_MDBShardFileFooter (ft_version ft) (ft_file_info_offset ft) (ft_cas_info_offset ft) (ft_file_lookup_offset ft) (ft_file_lookup_num ft)
